@@ -378,7 +378,7 @@ func refm(tp *c08Tpl) {
 var c08Keys = []string{"k", "j"}
 var c08Config = map[string]string{"k": "cfgK"} // j has no config value
 
-var c08Ops = []string{"fill1", "fill2", "fillS", "assignK", "assignJ", "new", "loadFM", "loadPlain", "fillNil"}
+var c08Ops = []string{"fill1", "fill2", "fillS", "assignK", "assignJ", "new", "loadFM", "loadPlain", "fillNil", "viewPlain", "viewFM"}
 
 // c08CurConfig is the config layer of the engine under replay (empty for an engine without file system)
 var c08CurConfig = c08Config
@@ -478,7 +478,7 @@ func c08Replay(ctx *core.Ctx, ops []string, noFS bool) (stateKey string, nTpl in
 		case "assignJ":
 			tp.t.Assign("j", "b1")
 			set("j", "b1")
-		case "new", "loadFM", "loadPlain":
+		case "new", "loadFM", "loadPlain", "viewPlain", "viewFM":
 			if len(tps) >= 3 || (noFS && op != "new") {
 				return "", 0, false
 			}
@@ -504,6 +504,20 @@ func c08Replay(ctx *core.Ctx, ops []string, noFS bool) (stateKey string, nTpl in
 			case "loadPlain":
 				child.t = tp.t.Load("plain.vuego")
 				child.file = true
+			case "viewPlain", "viewFM":
+				// View(renderer, file, model) = Load(file).Fill(model) on the new template: the renderer is left alone
+				file := "plain.vuego"
+				if op == "viewFM" {
+					file = "fm.vuego"
+					child.fm["k"] = "fmK"
+				}
+				child.t = vuego.View(tp.t, file, map[string]any{"k": "vw"})
+				child.file = true
+				child.vals["k"] = map[string]bool{"vw": true}
+				if !child.vals["j"][""] || len(child.vals["j"]) > 1 {
+					child.vals["j"][""] = true
+				}
+				refm(child)
 			}
 			tps = append(tps, child)
 			prev = append(prev, "")
@@ -656,7 +670,7 @@ func init() {
 		Level: "model_checking",
 		Rule: "presence part: all 2^5 subsets of {front-matter, Fill, Assign, data/a.yml, theme.yml} defining the key x Fill/Assign order x Load before/after x Fill datum {map, struct, *struct, struct with omitempty tags, typed map / pointer to map, struct with the key as a promoted field} x name {JSON tag, Go field} x value type {string,int,list,nil,zero} x read position {{{ }}, v-if ==, :attr, expression, Get} x entry point {Load+Render, RenderFile, RenderString}; " +
 			"vue part: every sequence of <=3 Vue.Render calls of one front-matter page (which defaults a variable with a <template v-if>) with data nil / empty / map / map overriding a front-matter key / typed map on one engine, each call judged by its own data; " +
-			"history part: explicit-state search over all sequences of {Fill(k), Fill(j only), Fill(struct), Assign(k), Assign(j), New, Load(with fm), Load(plain), Fill(nil)} on a tree of <=3 templates, each replayed on a fresh engine made with NewFS(fs) and - without the Load operations - with New() (no file system, no config layer); after every step every live template is observed (render + Get) against a layered reference model, and templates other than the target must be unchanged. states = distinct (model, observation) states; non-trivial = all",
+			"history part: explicit-state search over all sequences of {Fill(k), Fill(j only), Fill(struct), Assign(k), Assign(j), New, Load(with fm), Load(plain), Fill(nil), View(plain file, model), View(file with fm, model)} on a tree of <=3 templates, each replayed on a fresh engine made with NewFS(fs) and - without the Load operations - with New() (no file system, no config layer); after every step every live template is observed (render + Get) against a layered reference model, and templates other than the target must be unchanged. states = distinct (model, observation) states; non-trivial = all",
 		Bounds:      map[string]string{"quick": "history depth <= 4", "thorough": "history depth <= 6"},
 		Assumptions: []string{"a key set by an earlier Assign/Fill and not mentioned by a later Fill may survive or be dropped", "a struct passed to Fill whose field is nil is unconstrained"},
 		Decode:      core.DecodeAs[c08Case](),
@@ -667,7 +681,7 @@ func init() {
 			}
 			for _, o1 := range c08Ops {
 				emit(&c08Case{Part: "history", Prefix: []string{"0:" + o1}, Depth: depth})
-				if o1 != "loadFM" && o1 != "loadPlain" {
+				if o1 != "loadFM" && o1 != "loadPlain" && o1 != "viewPlain" && o1 != "viewFM" {
 					emit(&c08Case{Part: "history", Prefix: []string{"0:" + o1}, Depth: depth + 1, NoFS: true})
 				}
 			}
